@@ -1363,6 +1363,8 @@ def monitor_c17(sched, res):
             done_b = ob["b"]
             break
     for bi, b in enumerate(sched["bursts"]):
+        if sched.get("late_done_ok"):
+            break
         ends = [l for l in b["labels"] if l["k"] == "end" or (l["k"] == "msg" and l["m"]["t"] in ("goodbye", "abort"))]
         if ends and (done_b is None or done_b > bi):
             what = ends[0]["k"] if ends[0]["k"] == "end" else ends[0]["m"]["t"].upper()
@@ -1750,7 +1752,11 @@ def gen_c17(rng, tier, keys):
         h.hostile([b.msg("subscribed", req={"lit": 4}, sub=55)])
         h.hostile([{"k": "end"} if how == "end" else b.msg(how, uri="wamp.close.system_shutdown")])
         b.ended = True
-        b.s["probes"].append({"k": "ret_in", "o": o, "r": ["notconn"]})
+        # run() is behind a caller that is behind a peer that does not read: it is Close()
+        # (EndRecv) that releases them -- Done and the return come then, not at the end of the
+        # transport (docs/C17.md, limits); what is demanded here is that Close() returns and
+        # nothing is left
+        b.s["late_done_ok"] = True
         scripts.append(h.finish(probes=False))
     # the same race without a stalled reader: the call and the end of the transport in one burst
     for kind, kw in api_kinds:
